@@ -251,12 +251,23 @@ func ParseParameters(query string) []oid.Oid {
 		// SELECT * FROM users WHERE id = ?
 		if match[1] == "" {
 			parameters = append(parameters, 0)
+			continue
 		}
 
-		position, _ := strconv.Atoi(match[1]) //nolint:errcheck
-		if position > len(parameters) {
-			parameters = parameters[:position]
+		// NOTE: positions which do not fit the protocol are capped to the
+		// maximum number of parameters a prepared statement could have.
+		position, err := strconv.Atoi(match[1])
+		if err != nil || position > buffer.MaxPreparedStatementArgs {
+			position = buffer.MaxPreparedStatementArgs
 		}
+
+		for len(parameters) < position {
+			parameters = append(parameters, 0)
+		}
+	}
+
+	if len(parameters) > buffer.MaxPreparedStatementArgs {
+		parameters = parameters[:buffer.MaxPreparedStatementArgs]
 	}
 
 	return parameters
